@@ -1,11 +1,12 @@
 """C18 - cauchy_dot_product is the multivariate Cauchy product."""
 from .common import Decision, run_units
-from .series_props import specs_product, fold_canaries
+from .series_props import specs_product, specs_index, fold_canaries
 
 
 def check(tier, seed):
     d = Decision("C18", tier, seed)
-    d.add_units(fold_canaries(run_units(specs_product(tier))))
+    # the product relies on BlockSeries.__contains__ / __getitem__ (which terms are skipped, each factor element evaluated once): their units run here too
+    d.add_units(fold_canaries(run_units(specs_product(tier) + specs_index(tier))))
     d.add_lean(["PV.Bridge.sum_antidiagonal_eq_sum_box", "PV.Bridge.coeff_mul_box", "PV.Bridge.coeff_mul_blocks", "PV.Model.filtered"])
     d.assumptions += [
         "P-ONE (sentinel discipline, precondition): the `one` sentinel never meets another non-zero contribution in a sum "
